@@ -3,6 +3,7 @@ from .ir import load_unit, unit_errors, AnalysisBroken
 from . import rules_guard as RG
 from . import rules_atomic as RA
 from . import rules_slab as RS
+from . import rules_qs as RQ
 
 
 def need_unit(ctx, name, **kw):
@@ -53,4 +54,18 @@ def C04(ctx):
             "pool state and no call. Not decided: that later requests succeed (liveness over a history).")
 
 
-PROPS = {"C12": C12, "C05": C05, "C04": C04}
+def C11(ctx):
+    u = need_unit(ctx, "locks")
+    RG.check_guards(ctx, u, {"frg::lock_guard": ("lock", "unlock")})
+    RQ.check_qs_locking(ctx, u)
+    RQ.check_qs_run(ctx, u)
+    RQ.check_qs_period(ctx, u)
+    RQ.check_qs_chain(ctx, u)
+    return ("Structural clauses of C11: the domain mutex guard releases through unlock(); counter/ack-count/agent-count "
+            "writes are under the domain mutex; run() unlinks and resets the node before the callback and never touches "
+            "it afterwards; callback only under acquire-loaded counter >= target; both barrier functions use the same "
+            "period offset K >= 2; the ack RMW / release store / acquire load chain that carries the agents' work to the "
+            "callback. Not decided: the counting protocol over interleavings (deferred periods, joining agents), fairness.")
+
+
+PROPS = {"C11": C11, "C12": C12, "C05": C05, "C04": C04}
